@@ -930,6 +930,9 @@ func (fc *FnCtx) unop(x *ssa.UnOp) {
 	case token.ARROW:
 		// channel receive: sequential fragment, the value is arbitrary; the ghost count of completed receives grows
 		fc.syncPoint()
+		if fc.c != nil && fc.c.NonBlocking {
+			fc.oblige("nonblocking", "receive", "false", x.Pos(), nil, "")
+		}
 		fc.vals[x] = fc.freshWF(x.Type(), "recv", fc.cur)
 		fc.countRecv(v.T[0], "true")
 		fc.assumptions["channel receive yields an arbitrary value (sequential fragment)"] = true
@@ -1567,7 +1570,12 @@ func (fc *FnCtx) send(x *ssa.Send) {
 	ch := fc.val(x.Chan)
 	arr := fc.heapGet(fc.cur, "ghost:closed", fieldSort(sBool))
 	fc.safe("send", not(sx("select", arr, ch.T[0])), x.Pos(), func(n ast.Node) bool { _, ok := n.(*ast.SendStmt); return ok })
-	fc.assumptions["channel send: only 'not closed' is checked; blocking is not modelled"] = true
+	if fc.c != nil && fc.c.NonBlocking {
+		// a plain send waits for a receiver (or a free slot): not allowed in a function declared nonblocking
+		fc.oblige("nonblocking", "send{"+fc.srcText(x.Pos(), func(n ast.Node) bool { _, ok := n.(*ast.SendStmt); return ok })+"}", "false", x.Pos(), nil, "")
+	} else {
+		fc.assumptions["channel send: only 'not closed' is checked; blocking is not modelled"] = true
+	}
 }
 
 func (fc *FnCtx) selectInstr(x *ssa.Select) {
@@ -1579,6 +1587,8 @@ func (fc *FnCtx) selectInstr(x *ssa.Select) {
 	lo := "#x0000000000000000"
 	if !x.Blocking {
 		lo = "#xffffffffffffffff" // -1: default
+	} else if fc.c != nil && fc.c.NonBlocking {
+		fc.oblige("nonblocking", "select_without_default", "false", x.Pos(), nil, "")
 	}
 	fc.assume(and(sx("bvsle", lo, idx), sx("bvslt", idx, bvLit(uint64(n), 64))))
 	out := V{Ty: x.Type(), T: []string{idx, fc.fresh("select_recvok", sBool)}}
